@@ -207,6 +207,47 @@ def loud_cases():
     for oname, of in bad_outputs:
         for pname, op in scalar_ops:
             cases.append(("%s of a function returning %s" % (pname, oname), (lambda op=op, of=of: op(of))))
+    # input types autograd has no vector space / box for: SUBCLASSES of supported types with their own arithmetic or
+    # structure (np.matrix: * is a matrix product; MaskedArray: reductions skip masked entries; named tuples; list / dict /
+    # tuple subclasses), NumPy integer / bool scalars, and unrelated Python types.  Every operator must refuse them.
+    import collections
+    import decimal
+    import fractions
+
+    class _Arr(onp.ndarray):
+        pass
+
+    class _F(float):
+        pass
+
+    class _C(complex):
+        pass
+
+    class _I(int):
+        pass
+
+    class _L(list):
+        pass
+
+    class _D(dict):
+        pass
+
+    class _T(tuple):
+        pass
+
+    _NT = collections.namedtuple("_NT", "a b")
+    bad_inputs = [("numpy.matrix", onp.matrix([[1.0, 2.0], [3.0, 4.0]])), ("numpy.ma.MaskedArray", onp.ma.MaskedArray([1.0, 2.0, 3.0], mask=[0, 1, 0])),
+                  ("an ndarray subclass", onp.arange(3.0).view(_Arr)), ("a float subclass", _F(2.0)), ("a complex subclass", _C(2 + 1j)), ("an int subclass", _I(2)),
+                  ("a user-defined named tuple", _NT(onp.ones(2), 2.0)), ("a list subclass", _L([1.0, 2.0])), ("a dict subclass", _D(a=1.0)), ("a tuple subclass", _T((1.0, 2.0))),
+                  ("numpy.int64", onp.int64(2)), ("numpy.bool_", onp.bool_(True)), ("a record array", onp.rec.array([(1.0, 2.0)], dtype=[("a", "f8"), ("b", "f8")])),
+                  ("range", range(3)), ("set", {1.0}), ("bytes", b"ab"), ("decimal.Decimal", decimal.Decimal(2)), ("fractions.Fraction", fractions.Fraction(1, 2))]
+    arrlike = lambda v: isinstance(v, onp.ndarray)
+    for iname, val in bad_inputs:
+        body = (lambda z: np.sum(np.sin(z) * 2.0)) if arrlike(val) else (lambda z: 1.5)
+        cases.append(("grad w.r.t. an argument of type %s" % iname, (lambda body=body, val=val: autograd.grad(body)(val))))
+        cases.append(("make_vjp w.r.t. an argument of type %s" % iname, (lambda body=body, val=val: autograd.make_vjp(body)(val))))
+        cases.append(("make_jvp w.r.t. an argument of type %s" % iname, (lambda val=val: autograd.make_jvp(lambda z: z)(val)(val))))
+        cases.append(("a supported argument next to one of type %s selected by argnum" % iname, (lambda val=val: autograd.grad(lambda a, z: np.sum(a) * 1.0, 1)(x, val))))
     res = []
     for name, fn in cases:
         try:
